@@ -7,7 +7,7 @@ import ast
 from harness.core import OR, PROVED, REFUTED, UNKNOWN
 from harness import loader
 
-MODULES = ["ford.fortran_project", "ford.graphs", "ford.sourceform", "ford.output", "ford.settings", "ford.pagetree", "ford.external_project"]
+MODULES = ["ford.fortran_project", "ford.graphs", "ford.sourceform", "ford.output", "ford.settings", "ford.pagetree", "ford.external_project", "ford.reader", "ford.utils", "ford._markdown", "ford.__init__"]
 SET_RETURNING_CALLS = {"find_all_files", "set", "frozenset", "glob", "rglob", "iterdir", "listdir", "scandir"}
 
 
